@@ -37,8 +37,8 @@ CHECKS = {
    "For every workload and codec, every index k of the failing Read/Seek/ReadByte call, four error kinds (sentinel, io.EOF, io.ErrUnexpectedEOF, a Temporary()/Timeout() error), transient/sticky/with-data (pairs in thorough): error reported or all rows correct, never a panic.",
    "Rows delivered before a reported error are not judged.", "4/C10"),
  "C11": ("fault_enumeration", "exhaustive enumeration of truncation points",
-   "Every strict prefix of every workload file (incl. zero-row-group and one-record files, and files whose data embeds a footer image followed by its length so that some prefixes end like a complete file without the magic) is opened and iterated, and for a grid of (row groups x rows in the last row group) every cut inside the last 12 bytes: an error must be reported, no panic.",
-   "Prefixes that are themselves complete valid files are excluded by construction and re-validated.", "4/C11"),
+   "Every strict prefix of every workload file (incl. zero-row-group and one-record files, files closed with more than a page of records still pending, and files whose data embeds a footer image followed by its length so that some prefixes end like a complete file without the magic) is opened and iterated, and for a grid of (row groups x rows in the last row group) every cut inside the last 12 bytes: an error must be reported, no panic.",
+   "No workload stores the image of a complete file in a value; an accepted prefix is a violation even when it is a complete valid file in its own right (only the writer can have produced it).", "4/C11"),
  "C12": ("exploration", "exhaustive ordered page contents over per-type alphabets vs reference page decode",
    "Every ordered page content up to length m over each type's alphabet with nulls interleaved, for all 24 column kinds and nested contexts (every sequence of record states for 8 types x required/optional below optional and repeated groups): null_count exact, min/max (when present) bound every value in the type's order.",
    "Absent min/max accepted.", "4/C12"),
